@@ -3,6 +3,7 @@ import HC.Proofs.Sound
 import HC.Proofs.UpgradeSound
 import HC.Proofs.UpgradeBytes
 import HC.Proofs.SeekSound
+import HC.Proofs.HashUpgradeSound
 /-!
 # C04 — forged or altered proofs never change what a replica believes
 
@@ -237,5 +238,28 @@ theorem sound_hash_seek (C : Crypto) (bs : Array Bytes) (t : Tree) (f : File) (p
                 ∧ (n0.length = (RefTree.node C bs d o).1 → ∀ n ∈ srest, ∃ dn on, n = RefTree.nodeAt C bs dn on)))))) :=
   SeekSound.hash_seek_sound C bs t f pk p hsec s m0 hrest n0 srest cs hb hh hhn hs hsn hu (CreateTotal.canon_of_lt _ (by omega))
     (CreateTotal.canon_of_lt _ (by omega)) hauth hv
+
+/-- **hash section + upgrade in one proof** on any honest replica: the section's root waits in `verify_upgrade`'s queue
+    as its extra node; either the upgrade consumes it — then it is one of the nodes that hash up to roots the writer
+    signed (`HashUpgradeSound.upgrade_extra_auth`) — or it is compared with a stored node.  Either way the requested node
+    carries the writer's hash (of the writer's log, or of its signed prefix of the adopted length), and if its size is
+    the writer's, every other node of the section is the writer's node. -/
+theorem sound_hash_upgrade (C : Crypto) (bs : Array Bytes) (wfork : Nat) (Signed : Bytes → Prop)
+    (t : Tree) (f : File) (pk : Bytes) (p : Proof) (hsec : Codec.DataHash) (u : Codec.DataUpgrade) (cs' : Changeset)
+    (hb : p.block = none) (hh : p.hash = some hsec) (hs : p.seek = none) (hu : p.upgrade = some u) (hcan : hsec.index < 2 ^ 64)
+    (hcanon : ∀ l, t.changeset.roots.getLast? = some l → ∃ d o, l.index = Flat.index d o ∧ d ≤ 64)
+    (hunf : ∀ m sig, C.verify pk m sig = true → Signed m)
+    (hsig : ∀ m, Signed m → ∃ n, n ≤ bs.size ∧ m = RefTree.signableOf C (bs.extract 0 n) wfork)
+    (hlen : ∀ x, (C.tree x).length = 32) (hsize : bs.size < 2 ^ 64) (hwf : wfork < 2 ^ 64)
+    (hb1 : cs'.length < 2 ^ 64) (hb2 : p.fork < 2 ^ 64) (hT : u.start + u.length < 2 ^ 64)
+    (hauth : Sound.StoreAuthentic C bs t f)
+    (hv : t.verifyProof C f p pk = .ok cs') :
+    Sound.Collision C ∨ Sound.TreeCollision C ∨ ∃ n0 rest d o, hsec.nodes = n0 :: rest ∧ hsec.index = Flat.index d o ∧ n0.index = hsec.index
+      ∧ ((n0.hash = (RefTree.node C bs d o).2
+          ∧ (n0.length = (RefTree.node C bs d o).1 → ∀ n ∈ rest, ∃ dn on, n = RefTree.nodeAt C bs dn on))
+        ∨ (n0.hash = (RefTree.node C (bs.extract 0 cs'.length) d o).2
+          ∧ (n0.length = (RefTree.node C (bs.extract 0 cs'.length) d o).1 → ∀ n ∈ rest, ∃ dn on, n = RefTree.nodeAt C (bs.extract 0 cs'.length) dn on))) :=
+  HashUpgradeSound.hash_upgrade_sound C bs wfork Signed t f pk p hsec u cs' hb hh hs hu (CreateTotal.canon_of_lt _ (by omega)) hcanon hunf hsig hlen
+    hsize hwf hb1 hb2 hT hauth hv
 
 end HC.C04
